@@ -579,7 +579,7 @@ def run(ctx: core.Context) -> int:
     allow = (
         {'single': 35.0, 'double': 0.0, 'masks': 15.0, 'schedules': 25.0}
         if quick
-        else {'single': 180.0, 'double': 240.0, 'masks': 300.0, 'schedules': 200.0}
+        else {'single': 180.0, 'double': 240.0, 'masks': 240.0, 'schedules': 200.0}
     )
     self_check(seed)
     public_ok = probe_public_addresses(seed)
@@ -682,25 +682,25 @@ def run(ctx: core.Context) -> int:
 
     if not only or 'schedules' in only:
         st = ctx.sub('schedules')
-        names = list(SCHED_CASES)
-        deadline = time.time() + allow['schedules']
-        for name in names:
-            long_run = 'sc-PK' in name
-            if quick and long_run:
-                continue  # 20 passkey rounds = 300 choice points; thorough tier only
-            bound = 2 if (not quick and name in SCHED_DEEP) else 1
+        names = [n for n in SCHED_CASES if not (quick and 'sc-PK' in n)]  # 20 passkey rounds = 300 choice points: thorough only
+        deep = [n for n in names if not quick and n in SCHED_DEEP]
+        t_s = time.time()
+        deadline = t_s + allow['schedules']
+        runs = 0
+        for name in [n for n in names if n not in deep] + deep:
+            bound = 2 if name in deep else 1
+            params = {'name': name, 'seed': seed}
             if time.time() > deadline:
-                st.cap(f'schedules: wall-clock budget reached before {name}')
+                st.cap(f'schedules: wall-clock allowance used up before {name}')
                 continue
-            explore.explore(
-                run_sched,
-                {'name': name, 'seed': seed},
-                bound,
-                ctx.jobs,
-                st,
-                max_runs=None if quick else 20000,
-                label=f'{name}:',
-            )
+            if bound == 2:
+                # only start a depth-2 exploration that fits in what is left of the allowance at the rate measured so far
+                alts = sum(p - 1 for p in run_sched(params, {}, None)['points'])
+                est = (1 + alts + alts * alts / 2) / max(1.0, runs / max(1e-3, time.time() - t_s))
+                if time.time() + est > deadline:
+                    st.cap(f'schedules: depth 2 of {name} (~{int(alts * alts / 2)} runs) does not fit the wall-clock allowance; depth 1 done instead')
+                    bound = 1
+            runs += explore.explore(run_sched, params, bound, ctx.jobs, st, max_runs=None if quick else 20000, label=f'{name}:')
         ctx.log('schedules:', st.summary())
 
     return core.finish(
@@ -708,14 +708,20 @@ def run(ctx: core.Context) -> int:
         LEVEL,
         rule=(
             'table: every (initiator IO, responder IO, SC per side, MITM per side) cell = 400, + 10 OOB cells + 8 JSON-key-store '
-            'cells, all-accept users, each followed by re-encryption on later connections in same and swapped roles. '
-            'deviations: every single (thorough: also every pair on the 50 symmetric cells) deviation in bonding, key-distribution '
-            'mask slot x {0,ENC,ID,SIGN,LINK}, security-request initiation, identity-address type, each negative user answer at '
-            'each prompt of the cell\'s model, one-bit corruption of Confirm/Random/DHKey-Check/Public-Key per direction (first and '
-            'last passkey round). masks: 16x16 masks per side on 4 cells. schedules: all order-preserving delivery delays with <= d '
-            'deviations on 20 representative cases. distinct = distinct case (configuration, answers, fault) resp. distinct '
-            '(schedule prefix, choice fingerprints); outcome_classes counts distinct (model, deviation kinds, outcomes, SMP codes '
-            'seen per direction, re-encryption results).'
+            'cells, all-accept users, bonding, every key distributed, each followed by re-encryption on later connections in same '
+            'and swapped roles. deviations: every single deviation in bonding per side, each key-distribution mask slot x '
+            '{0,ENC,ID,SIGN,LINK}, security-request initiation, identity-address type, each negative user answer at each prompt of '
+            "the cell's model (reject / delegate raises / confirm no / compare no / passkey wrong in bit 0, 10, 19 / no passkey), "
+            'one-bit corruption of Confirm / Random / DHKey Check / Public Key per direction (first and last passkey round) '
+            '[quick: configuration deviations around the 50 cells with MITM on both sides and the same SC flag, answer and '
+            'corruption deviations around the 100 cells with MITM on both sides; thorough: all of them around all 400 cells, plus '
+            'every pair of deviations around the 50 cells]. masks: 16x16 masks of one side against a peer distributing everything, '
+            'for each side [thorough: + the lattice {0,ENC,ID,SIGN,LINK,all}^4, and all 16^4 for legacy Just Works] on 2 (quick) / 4 '
+            '(thorough) cells. schedules: all order-preserving delivery delays (HCI both ways, link, and the moment each user '
+            'answers) with <= 1 deviation on 18 (quick) / 20 (thorough) representative cases, <= 2 on 8 of them (thorough). '
+            'distinct = distinct case (configuration, answers, fault) resp. distinct (schedule prefix, choice fingerprints); '
+            'outcome_classes counts distinct (model, deviation kinds, outcome per side, SMP codes seen per direction, '
+            're-encryption results).'
         ),
         assumptions=[
             "only bumble's virtual controller and LE transport; CTKD over BR/EDR is not exercised",
